@@ -616,8 +616,40 @@ type c15Req struct {
 }
 
 func (q *c15Req) shape() string {
-	return fmt.Sprintf("%s/%v/%s|cn%d|alt%d|ip%d|uri%d|oth%d|ttl%v|na%v|nb%v|x%v|s%v|u%d|%s|csr%v", q.Kind, q.RoleInPath, q.PathIssuer,
-		len(q.CN), len(q.AltNames), len(q.IPs), len(q.URIs), len(q.Others), q.TTL, q.NotAfter != "", q.NotBefore != "", q.ExcludeCN, q.Serial != "", len(q.UserIDs), q.Format, q.CSR != nil)
+	nameClass := func(n string) string {
+		switch {
+		case n == "":
+			return "-"
+		case strings.Contains(n, "@"):
+			return "e"
+		case strings.Contains(n, "*"):
+			return "w"
+		case !c15IsASCII(n):
+			return "u"
+		}
+		return "d"
+	}
+	cn, alts := q.CN, q.AltNames
+	csr := "-"
+	if q.CSR != nil {
+		csr = fmt.Sprintf("%s/ca%v/ku%v/o%v/s%v|%s|d%de%di%du%do%d", q.CSR.Key, q.CSR.CA, q.CSR.KeyUsage != 0, len(q.CSR.Org) > 0, q.CSR.SubjSerial != "",
+			nameClass(q.CSR.CN), len(q.CSR.DNS), len(q.CSR.Emails), len(q.CSR.IPs), len(q.CSR.URIs), len(q.CSR.Others))
+	}
+	ac := ""
+	for _, a := range alts {
+		ac += nameClass(a)
+	}
+	ttl := "0"
+	switch {
+	case q.TTL > 48*time.Hour:
+		ttl = "xl"
+	case q.TTL > 2*time.Hour:
+		ttl = "l"
+	case q.TTL > 0:
+		ttl = "s"
+	}
+	return fmt.Sprintf("%s/%v/%v|cn%s|alt%s|ip%d|uri%d|oth%d|ttl%s|na%v|nb%v|x%v|s%v|u%d|%s|csr%s", q.Kind, q.RoleInPath, q.PathIssuer != "",
+		nameClass(cn), ac, len(q.IPs), len(q.URIs), len(q.Others), ttl, q.NotAfter != "", q.NotBefore != "", q.ExcludeCN, q.Serial != "", len(q.UserIDs), q.Format, csr)
 }
 
 func c15PickIP(rng *kit.Rand, r *c15Role, want bool) string {
@@ -771,7 +803,7 @@ func c15GenReq(rng *kit.Rand, r *c15Role, now time.Time) *c15Req {
 	case "email":
 		alts = append(alts, pickName(false, 1))
 	case "wildcard":
-		w := kit.Pick(rng, []string{"*.", "w*.", "*.sub."})
+		w := kit.Pick(rng, []string{"*.", "w*.", "*.sub.", "u_*.", "*!x.", "w*."})
 		d := "example.com"
 		if len(r.AllowedDomains) > 0 {
 			d = c15InstantiateGlob(rng, kit.Pick(rng, r.AllowedDomains))
@@ -922,7 +954,8 @@ func c15GenReq(rng *kit.Rand, r *c15Role, now time.Time) *c15Req {
 	} else {
 		// sign: place names where the role will look for them, and decoys where it must not
 		decoy := func() string {
-			if n, ok := c15SampleName(rng, r, false, 0); ok {
+			// half of the decoys would be admissible had they been requested properly
+			if n, ok := c15SampleName(rng, r, rng.Chance(1, 2), 0); ok {
 				return n
 			}
 			return "decoy.evil.test"
